@@ -5,7 +5,7 @@ package semver
 var c11NuGet = []string{
 	"d.d.d", "[d.d.d]", "[d.d.d,d.d.d]", "(d.d.d,d.d.d)", "[d.d.d,d.d.d)", "(d.d.d,)", "(,d.d.d]", "[d.d.d,)",
 	"d.d.*", "d.*", "[d.d.d-l,d.d.d]", "d.d.d-l", "(,d.d.d)", "d.d", "[d.d,d.d.d.d]",
-	"[d.d.d-l.0d,d.d.d)", "[d.d.d-0d]", "d.d.d.*", "[d.d.d.d,d.d.d.d]",
+	"[d.d.d-l.0d,d.d.d)", "[d.d.d-0d]", "d.d.d.*", "[d.d.d.d,d.d.d.d]", "[0.0.0-0.d,)", "(0.0.0-0.l,d.d.d]",
 }
 
 func c11Template(sys System, i int) string {
@@ -17,7 +17,7 @@ func c11Template(sys System, i int) string {
 
 func c11Version(sys System, i int) string {
 	if sys == NuGet {
-		return []string{"d.d.d", "d.d.d-l", "d.d.d-d", "d.d", "d.d.d-l.d"}[i]
+		return []string{"d.d.d", "d.d.d-l", "d.d.d-d", "d.d", "d.d.d-l.d", "0.0.0-0.d", "0.0.0-d"}[i]
 	}
 	return c09Versions[sys][i]
 }
